@@ -541,7 +541,8 @@ class SelfPath(Path):
         self.volatile = True
 
     def __str__(self) -> str:
-        return "@" + str(self.path)[1:]
+        env = self.path.env
+        return env.self_token + str(self.path)[len(env.root_token) :]
 
     def _current_node(self, context: FilterContext) -> JSONPathMatch:
         # The current node starts a relative query. It keeps the root value and
@@ -613,8 +614,8 @@ class FilterContextPath(Path):
         self.volatile = False
 
     def __str__(self) -> str:
-        path_repr = str(self.path)
-        return "_" + path_repr[1:]
+        env = self.path.env
+        return env.filter_context_token + str(self.path)[len(env.root_token) :]
 
     def _context_node(self, context: FilterContext) -> JSONPathMatch:
         # Keep the root value and filter context of the enclosing query, so
@@ -727,14 +728,15 @@ class FunctionExtension(FilterExpression):
 class CurrentKey(FilterExpression):
     """The key/property or index associated with the current object."""
 
-    __slots__ = ()
+    __slots__ = ("token",)
 
-    def __init__(self) -> None:
+    def __init__(self, token: str = "#") -> None:
         super().__init__()
         self.volatile = True
+        self.token = token
 
     def __str__(self) -> str:
-        return "#"
+        return self.token
 
     def __eq__(self, other: object) -> bool:
         return isinstance(other, CurrentKey)
